@@ -532,7 +532,8 @@ class IdentityMatrix(PositiveDefiniteMatrix, ImplicitArrayMatrix):
 
     @property
     def diagonal(self) -> NDArray:
-        return np.ones(self.shape[0])
+        # Implicitly sized identity: scalar one broadcasts against any vector
+        return np.ones(() if self.shape[0] is None else self.shape[0])
 
     def _construct_array(self) -> NDArray:
         if self.shape[0] is None:
